@@ -1,7 +1,7 @@
 ----------------------------- MODULE TraceProps -----------------------------
 (* Trace validation, predicate speed: every recorded case (real executions of the library) is
    judged by the property predicate named in IOEnv.PROP.  One TLC state per case. *)
-EXTENDS Props, KnownFindings, Json, IOUtils, TLCExt
+EXTENDS KnownFindings, Json, IOUtils, TLCExt
 VARIABLES l
 Rec == ndJsonDeserialize(IOEnv.TRACE)
 N == Len(Rec)
@@ -10,6 +10,7 @@ Judge(c) ==
   CASE PROP = "C02" -> P_C02(c)
     [] PROP = "C03" -> P_C03(c)
     [] PROP = "C04" -> P_C04(c)
+    [] PROP = "C12" -> P_C12(c)
     [] OTHER -> FALSE
 Init == l = 1 /\ TLCSet(2, {})
 Step == l <= N /\ l' = l + 1
